@@ -15,7 +15,8 @@ ID = "C18"
 TITLE = "Results are a pure function of the arguments, whatever the access history"
 TEMPLATES = ["mr|cat", "cat|mr", "mr|mr", "cai|cac", "cac|cai", "numarr|cat", "cat|datetime",
              "datetime|cat", "cat|mr|cat", "mr|cat|mr", "cat|cai|cac", "cat|cat", "mr",
-             "datetime", "numarr", "cat|cat|cat", "mrd|cat", "cat|mrd"]
+             "datetime", "numarr", "cat|cat|cat", "mrd|cat", "cat|mrd", "cat", "cat_date",
+             "cat|cat_date"]
 MODES = ["cube"] * 5 + ["cubeset_tabbook", "cubeset_ca0", "cubeset_numsum"]
 RULE = (
     "Recorded histories: a seeded random program of 40-160 steps over {construct another Cube "
@@ -53,7 +54,7 @@ UNIT_TIMEOUT_S = 90
 
 
 def units(tier, seed):
-    n = 300 if tier == "quick" else 20000
+    n = 640 if tier == "quick" else 20000
     out = [{"i": i, "seed": seed, "threads": False} for i in range(n)]
     if tier == "thorough":
         out += [{"i": i, "seed": seed, "threads": True} for i in range(400)]
@@ -140,11 +141,15 @@ def make_case(unit):
                 if role == "mr":
                     _derive_items(g, v)
         tr = {}
-        if g.chance(0.5):
+        if g.chance(0.8 if template in ("cat", "cat_date", "cat|cat", "cat|cat_date")
+                    else 0.5):
             cases.attach_insertions(g, facets, tr)
-        spec = sim.CubeSpec(facets, w, ("mean",) if "numarr" in template else
-                            g.pick([(), ("mean",), ("mean", "stddev"), ("mean", "stddev")]),
-                            None if "numarr" in template else g.num(N))
+        mset = ("mean",) if "numarr" in template else g.pick(
+            [(), ("mean",), ("mean", "stddev"), ("mean", "stddev")])
+        if facets[-1][0] == "mr" and len(facets) == 2 and "numarr" not in template and \
+                g.chance(0.5):
+            mset = tuple(mset) + ("overlap",)  # overlap-corrected pairwise tests
+        spec = sim.CubeSpec(facets, w, mset, None if "numarr" in template else g.num(N))
         if "numarr" not in template and "mean" not in spec.measures:
             spec.numvar = None
         _array_transforms(g, spec, tr)
